@@ -11,7 +11,7 @@
    History: before /repo commit b6cc8ee the results of the writes and of fclose were ignored (F14). *)
 From Coq Require Import List ZArith Bool.
 Import ListNotations.
-From LC Require Import Base Tree Api WriteFile RwFacts.
+From LC Require Import Base Tree Api WriteFile RwFacts StdioModel StdioFacts.
 Local Open Scope Z_scope.
 
 (* success is reported exactly when the open succeeded, the whole text fitted, the requested fsync
@@ -52,3 +52,47 @@ Example C12_examples :
   wf_ok (write_file [97; 61; 49; 59; 10] true (mkDev None true false false) 1) = false /\
   wf_ok (write_file [97; 61; 49; 59; 10] false (mkDev None true false false) 1) = true.
 Proof. repeat split. Qed.
+
+(* ---- stdio level (StdioModel.v / StdioFacts.v): a buffered stream with a STICKY error indicator over a device whose
+   write(2) calls succeed, are partial or fail according to an arbitrary schedule; config_write_file = put the text,
+   consult ferror, [fflush + fsync], fclose.  The device-capacity model above is the special case "every write beyond
+   the capacity fails"; here a failure may be TRANSIENT (later writes succeed). ---- *)
+
+(* success means that the whole serialisation reached the file, in order, nothing dropped - for every buffer size,
+   every schedule of write results, every text *)
+Theorem C12_stdio_success_complete : forall B sched fsync_opt fsync_ok close_ok text,
+  fst (write_file_model B sched fsync_opt fsync_ok close_ok text) = true ->
+  snd (write_file_model B sched fsync_opt fsync_ok close_ok text) = text.
+Proof. exact write_file_success_complete. Qed.
+Print Assumptions C12_stdio_success_complete.
+
+(* success is reported exactly when no write(2) call failed (a transient failure followed by successful writes
+   included), the requested fsync succeeded and the close succeeded *)
+Theorem C12_stdio_success_iff : forall B sched fsync_opt fsync_ok close_ok text,
+  fst (write_file_run B sched fsync_opt fsync_ok close_ok text) = true <->
+  (st_fails (snd (write_file_run B sched fsync_opt fsync_ok close_ok text)) = 0%nat /\
+   (fsync_opt = true -> fsync_ok = true) /\ close_ok = true).
+Proof. exact write_file_success_iff. Qed.
+Print Assumptions C12_stdio_success_iff.
+
+Theorem C12_stdio_any_failure : forall B sched fsync_opt fsync_ok close_ok text,
+  st_fails (snd (write_file_run B sched fsync_opt fsync_ok close_ok text)) <> 0%nat ->
+  fst (write_file_model B sched fsync_opt fsync_ok close_ok text) = false.
+Proof. exact write_file_any_failure. Qed.
+Print Assumptions C12_stdio_any_failure.
+
+(* a schedule without a failing write (partial writes allowed) loses nothing; the result is that of fsync and close *)
+Theorem C12_stdio_no_fail : forall B sched fsync_opt fsync_ok close_ok text,
+  fails_in sched = 0%nat ->
+  write_file_model B sched fsync_opt fsync_ok close_ok text = ((if fsync_opt then fsync_ok else true) && close_ok, text).
+Proof. exact write_file_no_fail. Qed.
+Print Assumptions C12_stdio_no_fail.
+
+(* the three ways of not consulting the sticky indicator (trusting fflush's result, skipping the check when FSYNC is
+   set, trusting fclose alone) report success for a file that lost bytes 4..8: the ferror check is needed *)
+Example C12_stdio_variants_refuted :
+  write_file_model 4 [WAll; WFail; WAll; WAll] false true true ex_text = (false, [48; 49; 50; 51; 57]%Z) /\
+  write_file_fflush_variant 4 [WAll; WFail; WAll; WAll] false true true ex_text = (true, [48; 49; 50; 51; 57]%Z) /\
+  write_file_skip_variant 4 [WAll; WFail; WAll; WAll] true true true ex_text = (true, [48; 49; 50; 51; 57]%Z) /\
+  write_file_close_variant 4 [WAll; WFail; WAll; WAll] true ex_text = (true, [48; 49; 50; 51; 57]%Z).
+Proof. vm_compute. repeat split. Qed.
